@@ -168,6 +168,17 @@ def long_inputs(rng, maxlen, big_path):
     yield "long:duration", "duration'P" + "1" * (n - 20) + "D'"
     yield "long:garbage", "#" * 10 + "a" * (n - 20)
     yield "long:in-chain", "a" + " in (1,)" * (n // 9)
+    # a deep, well-formed prefix immediately followed by a syntax error (the error path sees a
+    # deep node on the parser stack)
+    k = min(n // 8, 2500)
+    deep = {"add": "1" + " add 1" * k, "and": "a eq 1" + " and a eq 1" * (k // 2),
+            "not": "not " * k + "a", "path": "/".join(["ab"] * min(k, big_path)),
+            "minus": "-" * k + "a", "list": "(" * k + "1" + ",)" * k,
+            "call": "tolower(" * k + "a" + ")" * k}
+    for name, prefix in deep.items():
+        for sname, suffix in (("paren", " )"), ("operand", " b"), ("comma", ", x"), ("wrapped", ")) or c")):
+            yield "long:deep-%s-then-%s" % (name, sname), prefix + suffix
+        yield "long:deep-%s-in-parens-then-error" % name, "(" + prefix + ")) eq"
     yield "long:mixed", cap(" and ".join("(a%d/b/c add %d) mul -x lt f.g(%d, 'q''%d') or not y in (1, 2,)"
                                          % (i, i, i, i) for i in range(n // 70)))
 
